@@ -261,3 +261,98 @@ fn gen(d: &Desc, avail: usize, lim: &Limits) -> Vec<Value> {
         }
     }
 }
+
+// ------------------------------------------------------------------------------------------
+// scale ladder: one big value per size, for the facts that only show beyond the small scope
+// ------------------------------------------------------------------------------------------
+
+/// Container sizes around every power of two up to the 16-bit boundary (the places where a length,
+/// an offset or a counter changes width or sign), plus a few sizes in between.
+pub fn scale_ladder(thorough: bool) -> Vec<usize> {
+    let mut v: Vec<usize> = vec![17, 31, 32, 33, 63, 64, 65, 100, 127, 128, 129, 200, 254, 255, 256, 257, 300];
+    if thorough {
+        v.extend([511, 512, 513, 1000, 1023, 1024, 1025, 4095, 4096, 4097, 32767, 32768, 32769, 65534, 65535, 65536, 65537, 70000]);
+    }
+    v
+}
+
+fn first_values(d: &Desc, k: usize) -> Vec<Value> {
+    let avail = if d.is_sized() { d.size() } else { d.min_size() + 2 * d.align() + 4 };
+    let mut v = enum_values(d, avail, &Limits::quick());
+    // the smallest value and a larger one (values come smallest first)
+    if v.len() > k.max(1) {
+        let last = v.pop().unwrap();
+        v.truncate(k.max(1) - 1);
+        if k > 1 {
+            v.push(last);
+        }
+    }
+    v
+}
+
+/// A value of `d` whose (outermost, last) container holds exactly `n` elements / bytes / items; None when
+/// the type has no such container or its length type cannot count to `n`.
+pub fn scaled_value(d: &Desc, n: usize) -> Option<Value> {
+    match d {
+        Desc::Vec { elem, len } => {
+            if n as u128 > len.max() {
+                return None;
+            }
+            let al = first_values(elem, 3);
+            if al.is_empty() {
+                return None;
+            }
+            Some(Value::Vec((0..n).map(|i| al[(i * 7 + i / 5) % al.len()].clone()).collect()))
+        }
+        Desc::Str { len } => {
+            if n as u128 > len.max() {
+                return None;
+            }
+            // exactly n bytes of UTF-8: a two-byte character first (when it fits), ASCII behind it
+            let mut s: Vec<u8> = Vec::with_capacity(n);
+            if n >= 2 {
+                s.extend_from_slice("é".as_bytes());
+            }
+            while s.len() < n {
+                s.push(b'a' + (s.len() % 26) as u8);
+            }
+            Some(Value::Str(s))
+        }
+        Desc::Flex { item, len } => {
+            let al = first_values(item, 2);
+            if al.is_empty() {
+                return None;
+            }
+            // every offset (slot + rounded item size) must be representable below the last-item marker
+            let a = d.align();
+            for v in &al {
+                let sz = encode(item, v, 1 << 20, 0).ok()?.extent;
+                if (d.data_offset() + crate::ceil(sz, a)) as u128 >= len.max() {
+                    return None;
+                }
+            }
+            Some(Value::Flex((0..n).map(|i| al[(i + i / 3) % al.len()].clone()).collect()))
+        }
+        Desc::Struct { fields, sized: false } => {
+            let (last, head) = fields.split_last()?;
+            let mut f: Vec<Value> = head.iter().map(|h| first_values(h, 1).into_iter().next()).collect::<Option<Vec<_>>>()?;
+            f.push(scaled_value(last, n)?);
+            Some(Value::Struct(f))
+        }
+        Desc::Enum { variants, sized: false, .. } => {
+            for (vi, fs) in variants.iter().enumerate() {
+                if let Some((last, head)) = fs.split_last() {
+                    if !last.is_sized() {
+                        if let Some(t) = scaled_value(last, n) {
+                            let mut f: Vec<Value> = head.iter().map(|h| first_values(h, 1).into_iter().next()).collect::<Option<Vec<_>>>()?;
+                            f.push(t);
+                            return Some(Value::Enum(vi, f));
+                        }
+                    }
+                }
+            }
+            None
+        }
+        _ => None,
+    }
+}
